@@ -13,8 +13,8 @@ META = {
     "C13": dict(
         text="Lean 4 theorems (c13_schedule, c13_length, c13_numbering, c13_law, c13_clamped, c13_representable, c13_saturates, c13_exhausted) over a bounded-arithmetic model of BackoffStrategyIter::next for all strategies, steps, factors, attempt counts and maxima; the model is tied to the code by running the real iterator and the compiled Lean model on the same configurations every run and by an independent law monitor on the implementation",
         design_ref="DESIGN.md section 6, C13",
-        note="trusts the Lean kernel (+propext, Classical.choice, Quot.sound), std's checked_mul/checked_pow/Duration, and the correspondence harness; next() is modelled by hand, constants are regenerated from the source",
-        technique="Lean 4 proof over hand model + differential correspondence with the real iterator",
+        note="trusts the Lean kernel (+propext, Classical.choice, Quot.sound), std's checked_mul/checked_pow/Duration, the translator's printing of the Rust subset, and the correspondence harness; next() and saturating_mul are regenerated from the source (Gen/BackoffFn.lean) and proved equal to the hand model; when a refactor takes them out of the translated subset the generated-code theorems are reported as not discharged (no alarm)",
+        technique="Lean 4 proof over a hand model AND over the iterator's code itself (next(), saturating_mul printed as Lean definitions by the translator on every run, proved equal to the hand model for all arguments) + differential correspondence with the real iterator",
     ),
 }
 
@@ -22,7 +22,7 @@ META["C05"] = dict(
     text="Lean 4 theorems over a generic bincode-by-schema model and hand models of MessageCodec, Frame::try_from, FramedRead and the batch format: c05_roundtrip (decode(encode f ++ rest) = (f, rest), 8-byte BE length prefix, 9+len bytes), c05_encode_limit, c05_decode_limit (refused with only the 9 header bytes present), c05_incomplete_waits, c05_chunking_any_bytes (for ALL byte strings and ALL chunkings FramedRead yields what it yields on the whole string), c05_chunking, c05_truncated, c05_batch_roundtrip, c05_tags_injective; tags/schemas/constants are regenerated from the source each run and the obligations re-proved; control flow is tied to the code by driving the real codec, a real FramedRead and the compiled model on the same inputs",
     design_ref="DESIGN.md section 6, C05",
     note="trusts the Lean kernel (+propext, Classical.choice, Quot.sound), the stated bincode/serde/tokio-util contracts, the syn translator and the correspondence harness",
-    technique="Lean 4 proof (generic schema round trip + prefix-stability of decode) + regenerated tables + differential correspondence",
+    technique="Lean 4 proof (generic schema round trip + prefix-stability of decode) + regenerated tables + MessageCodec::decode / encode and decode_message_batch printed as Lean definitions by the translator on every run and proved equal to the hand model for every buffer + differential correspondence",
 )
 
 META["C14"] = dict(
@@ -35,14 +35,14 @@ META["C06"] = dict(
     text="Lean 4 theorems that every decoding step Selium implements is total: MessageCodec::decode and the whole FramedRead stream (c06_frame_total, c06_stream_total), decode_message_batch (c06_batch_total, c06_batch_bounded), String/Bytes/Bincode codecs for every schema (c06_*_total), the subscriber pipeline for a total decompressor (c06_pipeline_total_partial), and Subscriber::poll_next itself as a state machine with its stack depth (c06_subscriber_poll_terminates, c06_subscriber_stack_bounded + the regenerated obligation c06_subscriber_does_not_recurse, c06_subscriber_total_partial); models carry an explicit panic result, the correspondence runs each real decoder in a child process under an address-space limit and compares outcome classes; a library Subscriber is fed arbitrary frames (incl. runs of 30000 frames that yield nothing) by a raw publisher in a guarded child",
     design_ref="DESIGN.md section 6, C06",
     note="library decompressors and serde internals are outside the model (hypothesis Compressor.Total, exercised in the guarded child)",
-    technique="Lean 4 totality proofs over models with explicit panics + guarded-child differential runs",
+    technique="Lean 4 totality proofs over models with explicit panics (for the frame decoder and the batch decoder also over the code itself: generated definitions in which every buffer operation that can panic is an explicit outcome, proved never to reach it) + guarded-child differential runs",
 )
 
 META["C07"] = dict(
     text="Lean 4 theorems over a model of TopicName::{try_from, create, is_valid, Display} parameterised by the regex data regenerated from the source with the regex crate's own parser: c07_accept_iff (accepted exactly when /ns/topic with 3-64 class characters and unreserved namespace), c07_total (never a panic, for every string incl. multi-byte first characters), display/parse round trips, c07_server_same_rule (is_valid and the client parser agree), c07_names_are_distinct_keys; tied to the code by running the real parser and the model on the same strings incl. every Unicode class boundary",
     design_ref="DESIGN.md section 6, C07",
     note="trusts the regex engine for patterns of the extracted shape (corresponded), the translator, and the Lean kernel",
-    technique="Lean 4 proof over regenerated regex data + differential correspondence",
+    technique="Lean 4 proof over regenerated regex data (and over TopicName::is_valid itself, printed as a Lean definition by the translator on every run and proved equal to the model) + differential correspondence",
 )
 
 META["C01"] = dict(
